@@ -4,7 +4,8 @@ package main
 
 // Component lockorder (C34): the lock-order translator (verifharness/lockgraph: go/packages + go/ssa +
 // callgraph/vta over the source of /repo).
-//   gen_lockorder: writes coq/gen/LockGraph.v - the lock classes and the edges "b may be acquired while a is held".
+//   gen_lockorder: writes coq/gen/LockGraph.v - the lock classes and the edges "b may be acquired while a is held" -
+//                  and coq/gen/WriteSites.v - the write sites of the write discipline (see c_guards.go).
 //   lockorder:     searches the same graph for cycles and reports each as a case (a possible deadlock, with the source
 //                  positions where the conflicting orders arise), plus one case saying that nothing cyclic is left
 //                  once one edge of every reported cycle is removed.
@@ -37,6 +38,7 @@ func genLockOrder(c *hx.Ctx) {
 		panic(err)
 	}
 	c.WriteFile("LockGraph.v", r.Coq())
+	c.WriteFile("WriteSites.v", r.WriteSitesCoq()) // the write sites of the same SSA program (component guards)
 }
 
 // lockFindCycle returns one cycle of the graph (as a list of nodes) or nil.
